@@ -998,7 +998,8 @@ func (client *client) publishHandler(pub *packets.Publish) *codes.Error {
 	msg = gmqtt.MessageFromPublish(pub)
 
 	if client.version == packets.Version5 && pub.Properties.TopicAlias != nil {
-		if *pub.Properties.TopicAlias >= client.opts.ServerTopicAliasMax {
+		// valid aliases are 1..ServerTopicAliasMax (the value advertised in CONNACK) [MQTT-3.3.2-8,9]
+		if *pub.Properties.TopicAlias == 0 || *pub.Properties.TopicAlias > client.opts.ServerTopicAliasMax {
 			return &codes.Error{
 				Code: codes.TopicAliasInvalid,
 			}
